@@ -334,6 +334,17 @@ func compoundType(op *trace.Op) (*core.DatatypeMessage, error) {
 		}
 		fields = append(fields, core.CompoundFieldDef{Name: f.Name, Offset: f.Offset, Type: ft})
 	}
+	if op.Mode == "v1" {
+		total := uint32(0)
+		for _, f := range fields {
+			total += f.Type.Size
+		}
+		enc, err := core.EncodeCompoundDatatypeV1(total, fields)
+		if err != nil {
+			return nil, err
+		}
+		return core.ParseDatatypeMessage(enc)
+	}
 	return core.CreateCompoundTypeFromFields(fields)
 }
 
